@@ -67,6 +67,7 @@ func (d *badgerNodeDB) StartMultipartInsert(version uint64) error {
 
 	d.meta.setMultipart(version, multiMeta)
 	d.meta.commit(tx)
+	api.VerifCrashPoint("pathbadger.startmp.post-meta")
 
 	d.multipartVersion = version
 	d.multipartMeta = multiMeta
@@ -146,14 +147,17 @@ func (d *badgerNodeDB) cleanMultipartLocked(removeNodes bool) error {
 
 	// Flush batch first. If anything fails, having corrupt multipart info in d.meta shouldn't hurt
 	// us next run.
+	api.VerifCrashPoint("pathbadger.cleanmp.pre-flush")
 	if err := batch.Flush(); err != nil {
 		return err
 	}
+	api.VerifCrashPoint("pathbadger.cleanmp.post-flush")
 
 	metaTx := d.db.NewTransactionAt(tsMetadata, true)
 	defer metaTx.Discard()
 	d.meta.setMultipart(0, nil)
 	d.meta.commit(metaTx)
+	api.VerifCrashPoint("pathbadger.cleanmp.post-meta")
 
 	d.multipartVersion = multipartVersionNone
 	d.multipartMeta = nil
